@@ -378,15 +378,19 @@ pub fn scn_bound(o: &Opts, tr: &mut Tr, prop: &str) {
             sizes.push(t);
         }
     }
-    let kinds = ["rand", "sparse3", "rand", "alpha2"];
+    for t in [1000usize, 5000, 5200, 6000, 12000, 20000, 40000, 58000, 59000] {
+        sizes.push(t);
+    }
+    let kinds = ["rand", "sparse3", "hibytes", "alpha2", "hibytes", "rand"];
     for (si, &n) in sizes.iter().enumerate() {
-        let reps = if n <= 300 { 1 } else { 2 };
+        let reps = if n <= 300 { 1 } else { 3 };
         for rep in 0..reps {
-            let kind = if n <= 300 { "rand" } else { kinds[(si + rep) % kinds.len()] };
+            let kind = if n <= 300 { ["rand", "hibytes"][si % 2] } else { kinds[(si + rep) % kinds.len()] };
             let data = gen::data(kind, n, &mut r);
             let levels: Vec<i32> = if n <= 300 { vec![[-1, 0, 1, 2, 6, 9, 10][(si + rep) % 7], 6] } else if n > 200_000 { vec![0, 1] } else { vec![0, 1, 6] };
             for level in levels {
-                let strat = if n <= 300 { (si % 5) as i32 } else { 0 };
+              let strats: Vec<i32> = if n <= 300 { vec![(si % 5) as i32] } else if n <= 200_000 { vec![0, 4, [1, 2, 3][(si + rep) % 3]] } else { vec![0] };
+              for strat in strats {
                 tr.case(&format!("bd-{}-{}-l{}-s{}-{}", kind, n, level, strat, rep), prop, json!({"n": n}));
                 unsafe {
                     let bound = mz_compressBound(n as _) as usize;
@@ -422,6 +426,7 @@ pub fn scn_bound(o: &Opts, tr: &mut Tr, prop: &str) {
                     }
                 }
             }
+              }
         }
     }
 }
